@@ -8,7 +8,7 @@ From Verif Require Import SendReq.Model SendReq.ProofsBound SendReq.ProofsSelect
 (* twin of [loop] for a script prefix that is used up: events up to and including the last send, the state
    after that send and its target *)
 Fixpoint loop_pre (c : cfg) (script : list outcome) (s : state) (prev : option (nat * outcome)) (i : nat) : option (list event * state * nat) :=
-  match pre c s prev i with
+  match pre false c s prev i with
   | HDone r evs => None
   | HRetry s1 evs1 =>
       let s1' := if 0 <? i then set_q_retry true s1 else s1 in
@@ -31,24 +31,24 @@ Fixpoint loop_pre (c : cfg) (script : list outcome) (s : state) (prev : option (
 
 Lemma loop_split c pr : forall s prev i evs x t o rest,
   loop_pre c pr s prev i = Some (evs, x, t) -> o <> OSuccess ->
-  loop c (pr ++ o :: rest) s prev i =
-  (let '(evs', r) := loop c rest x (Some (t, o)) (S (i + length pr)) in (evs ++ evs', r)).
+  loop_gen false c (pr ++ o :: rest) s prev i =
+  (let '(evs', r) := loop_gen false c rest x (Some (t, o)) (S (i + length pr)) in (evs ++ evs', r)).
 Proof.
   induction pr as [|p pr IH]; intros s prev i evs x t o rest H Ho; rewrite loop_unfold; cbn [loop_pre] in H;
-    destruct (pre c s prev i) as [s1 evs1|]; try discriminate; cbv zeta in *;
+    destruct (pre false c s prev i) as [s1 evs1|]; try discriminate; cbv zeta in *;
     destruct (sel_phase c _) as [s2 t2 evs2|]; try discriminate.
   - injection H as <- <- <-. cbn [app length]. rewrite Nat.add_0_r.
-    destruct o; try congruence; destruct (loop c rest _ _ _) as [e r]; rewrite <- !app_assoc; reflexivity.
+    destruct o; try congruence; destruct (loop_gen false c rest _ _ _) as [e r]; rewrite <- !app_assoc; reflexivity.
   - cbn [app length].
     destruct p; try discriminate;
       (destruct (loop_pre c pr _ _ _) as [[[evs0 x0] t0]|] eqn:E; [|discriminate]; injection H as <- <- <-;
        rewrite (IH _ _ _ _ _ _ o rest E Ho); rewrite <- Nat.add_succ_comm;
-       destruct (loop c rest _ _ _) as [e r]; rewrite <- !app_assoc; reflexivity).
+       destruct (loop_gen false c rest _ _ _) as [e r]; rewrite <- !app_assoc; reflexivity).
 Qed.
 
 (* leader read of a 3-replica region, everything healthy, a generous budget *)
 Definition c0 : cfg := mkCfg RTLeader false true false false false false 100000%N true
-  [fresh_rep Reachable false false false; fresh_rep Reachable false false false; fresh_rep Reachable false false false].
+  [fresh_rep Reachable false false false; fresh_rep Reachable false false false; fresh_rep Reachable false false false] false.
 
 Definition N0 := ONotLeaderHint 0.
 Definition N1 := ONotLeaderHint 1.
@@ -73,31 +73,31 @@ Lemma cycle_pre i : loop_pre c0 [N0] X (Some (0, N1)) (S i) = Some (E_cycle, X, 
 Proof. vm_compute. reflexivity. Qed.
 
 Lemma prefix_attempts rest :
-  n_attempts (fst (loop c0 (cyc 10 ++ N1 :: rest) (init_state c0 [] []) None 0)) =
-    21 + n_attempts (fst (loop c0 rest X (Some (0, N1)) 21)) /\
-  n_backoffs (fst (loop c0 (cyc 10 ++ N1 :: rest) (init_state c0 [] []) None 0)) =
-    n_backoffs (fst (loop c0 rest X (Some (0, N1)) 21)).
+  n_attempts (fst (loop_gen false c0 (cyc 10 ++ N1 :: rest) (init_state c0 [] []) None 0)) =
+    21 + n_attempts (fst (loop_gen false c0 rest X (Some (0, N1)) 21)) /\
+  n_backoffs (fst (loop_gen false c0 (cyc 10 ++ N1 :: rest) (init_state c0 [] []) None 0)) =
+    n_backoffs (fst (loop_gen false c0 rest X (Some (0, N1)) 21)).
 Proof.
   rewrite (loop_split _ _ _ _ _ _ _ _ N1 rest prefix_pre) by discriminate.
-  change (S (0 + length (cyc 10))) with 21. destruct (loop c0 rest X _ 21) as [e r]. cbn [fst].
+  change (S (0 + length (cyc 10))) with 21. destruct (loop_gen false c0 rest X _ 21) as [e r]. cbn [fst].
   rewrite n_attempts_app, n_backoffs_app. split; reflexivity.
 Qed.
 
 Lemma cycle_attempts rest i :
-  n_attempts (fst (loop c0 (N0 :: N1 :: rest) X (Some (0, N1)) (S i))) =
-    2 + n_attempts (fst (loop c0 rest X (Some (0, N1)) (S (S (S i))))) /\
-  n_backoffs (fst (loop c0 (N0 :: N1 :: rest) X (Some (0, N1)) (S i))) =
-    n_backoffs (fst (loop c0 rest X (Some (0, N1)) (S (S (S i))))).
+  n_attempts (fst (loop_gen false c0 (N0 :: N1 :: rest) X (Some (0, N1)) (S i))) =
+    2 + n_attempts (fst (loop_gen false c0 rest X (Some (0, N1)) (S (S (S i))))) /\
+  n_backoffs (fst (loop_gen false c0 (N0 :: N1 :: rest) X (Some (0, N1)) (S i))) =
+    n_backoffs (fst (loop_gen false c0 rest X (Some (0, N1)) (S (S (S i))))).
 Proof.
   change (N0 :: N1 :: rest) with ([N0] ++ N1 :: rest).
   rewrite (loop_split _ _ _ _ _ _ _ _ N1 rest (cycle_pre i)) by discriminate.
   cbn [length]. replace (S (S i + 1)) with (S (S (S i))) by lia.
-  destruct (loop c0 rest X _ _) as [e r]. cbn [fst]. rewrite n_attempts_app, n_backoffs_app. split; reflexivity.
+  destruct (loop_gen false c0 rest X _ _) as [e r]. cbn [fst]. rewrite n_attempts_app, n_backoffs_app. split; reflexivity.
 Qed.
 
 Lemma cyc'_attempts k : forall i,
-  n_attempts (fst (loop c0 (cyc' k) X (Some (0, N1)) (S i))) = 2 * k + 1 /\
-  n_backoffs (fst (loop c0 (cyc' k) X (Some (0, N1)) (S i))) = 0.
+  n_attempts (fst (loop_gen false c0 (cyc' k) X (Some (0, N1)) (S i))) = 2 * k + 1 /\
+  n_backoffs (fst (loop_gen false c0 (cyc' k) X (Some (0, N1)) (S i))) = 0.
 Proof.
   induction k as [|k IH]; intros i.
   - vm_compute. split; reflexivity.
@@ -107,7 +107,7 @@ Qed.
 Lemma lasso_attempts k :
   n_attempts (fst (run c0 (lasso k) [] [])) = 22 + 2 * k /\ n_backoffs (fst (run c0 (lasso k) [] [])) = 0.
 Proof.
-  unfold run, lasso. change (c_read c0 && negb (c_val c0)) with false. cbv iota.
+  unfold run, run_gen, lasso. change (c_read c0 && negb (c_val c0)) with false. cbv iota.
   destruct (prefix_attempts (cyc' k)) as [A B]. destruct (cyc'_attempts k 20) as [A' B']. rewrite A, B, A', B'. split; lia.
 Qed.
 
